@@ -27,6 +27,7 @@ SPECS = {
     "spec_C19_defs": "(if spec_C19_defs c h then 0%Z else 2%Z)",
     "spec_C03_selection": "(spec_C03_selection_code c wm h)",
     "spec_C18_registered": "(if spec_C18_registered c wm h then 0%Z else 2%Z)",
+    "spec_C18_introspection": "(if spec_C18_introspection h then 0%Z else 2%Z)",
 }
 
 
